@@ -17,7 +17,7 @@ PROPERTY = "C19"
 LEVEL = "model_checking"
 ASSUMPTIONS = [
     "bound: directory depth <= 3 (quick) / <= 4 (thorough); resource path of 1..4 (quick) / 1..6 (thorough) components",
-    "components are int-coded into 4 classes {'.', '..', plain name, dotted name}; distinct names per position "
+    "components are int-coded into 6 classes {'.', '..', plain name, dotted name}; distinct names per position "
     "(the code compares component text only with '.' and '..', so the classes are exact)",
     "'rejected' = the call raises any Exception",
     "directory strings reach to_absolute already split (list form) in the kernel obligation; the string form goes "
@@ -47,7 +47,11 @@ def name(code, i):
         return ".."
     if code == 2:
         return "n%d" % i
-    return "n%d.x" % i
+    if code == 3:
+        return "n%d.x" % i
+    if code == 4:
+        return ".h%d" % i          # a NAME that starts with a dot
+    return "..x%d" % i             # a NAME that starts with two dots
 
 
 def model(path, rest):
@@ -80,7 +84,7 @@ def real(path, rest, as_string=False):
 
 def ob_resolve(codes: List[int]) -> bool:
     """
-    pre: 1 <= len(codes) <= part("maxlen") and all(0 <= c <= 3 for c in codes)
+    pre: 1 <= len(codes) <= part("maxlen") and all(0 <= c <= 5 for c in codes)
     pre: codes[0] == part("first")
     post: _
     """
@@ -165,14 +169,14 @@ def obligations(tier):
     obs = []
     if tier == "quick":
         for d in range(0, 4):
-            for f in range(4):
+            for f in range(6):
                 obs.append(Ob("ob_resolve", dict(depth=d, first=f, maxlen=4), timeout=100, per_path=20,
-                              bounds="depth=%d, first class=%d, 1..4 components x 4 classes" % (d, f)))
+                              bounds="depth=%d, first class=%d, 1..4 components x 6 classes" % (d, f)))
         obs += _query_obs([1], 2, 0, 150)
     else:
         for d in range(0, 5):
-            for f in range(4):
+            for f in range(6):
                 obs.append(Ob("ob_resolve", dict(depth=d, first=f, maxlen=6), timeout=900, per_path=20,
-                              bounds="depth=%d, first class=%d, 1..6 components x 4 classes" % (d, f)))
+                              bounds="depth=%d, first class=%d, 1..6 components x 6 classes" % (d, f)))
         obs += _query_obs([0, 1, 2, 3], 3, 2, 900)
     return obs
